@@ -3059,7 +3059,7 @@ Definition w0 : world :=
      w_next_ino := 5 |}.
 Definition cfgx (recursive movein : bool) : cfg :=
   {| c_recursive := recursive; c_mask := WATCHDOG_ALL; c_root := pR; c_fix_ignored := true; c_fix_movein := movein;
-     c_fix_simulate := true; c_fix_moveout := true; c_faults := [] |}.
+     c_fix_simulate := true; c_fix_relabel := true; c_fix_moveout := true; c_faults := [] |}.
 Definition Px (movein : bool) : pcfg :=
   {| pc_reader := cfgx true movein; pc_full := false; pc_filter := None; pc_delay := 5 |}.
 
